@@ -292,8 +292,12 @@ class NamespaceMixin(object):
             ast = declast.check_decl(decl, namespace=self)
 
         name = ast.get_name()  # Local name.
+        fields = kwargs.get("fields", None)
+        if fields is not None and not isinstance(fields, dict):
+            raise RuntimeError(
+                "fields must be a dictionary in '{}'".format(decl))
         node = TypedefNode(name, parent=self, ast=ast)
-        node.typemap = self.create_typedef_typemap(node, fields=kwargs.get("fields", None))
+        node.typemap = self.create_typedef_typemap(node, fields=fields)
         self.typedefs.append(node)
         self.symbols[name] = node
         return node
@@ -1141,7 +1145,9 @@ class ClassNode(AstNode, NamespaceMixin):
         fields = kwargs.get("fields", None)
         if fields is not None:
             if not isinstance(fields, dict):
-                raise TypeError("fields must be a dictionary")
+                raise RuntimeError(
+                    "fields must be a dictionary in '{} {}'".format(
+                        self.parse_keyword, name))
 
         if self.parse_keyword == "struct":
             self.wrap_as = self.options.wrap_struct_as
